@@ -1666,8 +1666,8 @@ class PPTableFormat:
         # it is not known any more if some lines will be skipped
         self.any_lines_skipped = None
         # actual widths were fitted to the records visible with the old limits
-        for col in self.repr_structure.columns:
-            col.width = None
+        # (printing which is still in progress keeps the columns it started with)
+        self.repr_structure = self.repr_structure.clone()
 
     @staticmethod
     def _parse_fmt(fmt):
@@ -1906,7 +1906,7 @@ class _PPTableImpl:
                 yield tl.ch_text
             else:
                 yield self._make_table_line(
-                    self._ppt_fmt.repr_structure.make_record_ch_chunks_all(tl, cp),
+                    repr_structure.make_record_ch_chunks_all(tl, cp),
                     sep)
 
         # 6. final border line
